@@ -118,6 +118,8 @@ type pkgInfo struct {
 	globals    map[string]bool          // package-level variables
 	funcs      map[string]*ast.FuncDecl // package-level functions (no receiver)
 	tag        string                   // "func" for the root package, "func.<dir>" otherwise
+	fieldElem  map[string]string        // "T.f" -> element type name of the field's declared type (pointers, slices, arrays, map values unwrapped)
+	external   map[string]bool          // "T.f": the element type belongs to another package (pkg.Type)
 }
 
 func typeName(e ast.Expr) string {
@@ -130,6 +132,42 @@ func typeName(e ast.Expr) string {
 		return typeName(t.X) + "." + t.Sel.Name
 	}
 	return ""
+}
+
+// elemTypeName unwraps pointers, slices, arrays and map values down to a named type.
+func elemTypeName(e ast.Expr) string {
+	switch t := e.(type) {
+	case *ast.StarExpr:
+		return elemTypeName(t.X)
+	case *ast.ArrayType:
+		return elemTypeName(t.Elt)
+	case *ast.MapType:
+		return elemTypeName(t.Value)
+	case *ast.Ellipsis:
+		return elemTypeName(t.Elt)
+	case *ast.Ident:
+		return t.Name
+	case *ast.SelectorExpr:
+		return typeName(t.X) + "." + t.Sel.Name
+	}
+	return ""
+}
+
+// hasMethod: type tn of this package (struct or interface) declares method m.
+func (p *pkgInfo) hasMethod(tn, m string) bool {
+	if _, ok := p.methods[tn+"."+m]; ok {
+		return true
+	}
+	if it, ok := p.interfaces[tn]; ok {
+		for _, f := range it.Methods.List {
+			for _, n := range f.Names {
+				if n.Name == m {
+					return true
+				}
+			}
+		}
+	}
+	return false
 }
 
 func load(dir string, tag string) *pkgInfo {
@@ -158,7 +196,8 @@ func load(dir string, tag string) *pkgInfo {
 	}
 	p := &pkgInfo{structs: map[string]*ast.StructType{}, interfaces: map[string]*ast.InterfaceType{},
 		methods: map[string]*ast.FuncDecl{}, byName: map[string][]string{}, mutexField: map[string]bool{},
-		globals: map[string]bool{}, funcs: map[string]*ast.FuncDecl{}, tag: tag}
+		globals: map[string]bool{}, funcs: map[string]*ast.FuncDecl{}, tag: tag,
+		fieldElem: map[string]string{}, external: map[string]bool{}}
 	for _, pkg := range pkgs {
 		for _, f := range pkg.Files {
 			for _, d := range f.Decls {
@@ -180,6 +219,13 @@ func load(dir string, tag string) *pkgInfo {
 						case *ast.StructType:
 							p.structs[ts.Name.Name] = t
 							for _, fl := range t.Fields.List {
+								et := elemTypeName(fl.Type)
+								for _, n := range fl.Names {
+									p.fieldElem[ts.Name.Name+"."+n.Name] = et
+									if strings.Contains(et, ".") {
+										p.external[ts.Name.Name+"."+n.Name] = true
+									}
+								}
 								tn := typeName(fl.Type)
 								if tn == "sync.Mutex" || tn == "sync.RWMutex" {
 									for _, n := range fl.Names {
@@ -273,9 +319,18 @@ func (t *fnTrans) classOf(e ast.Expr, sc *scope) (string, bool) {
 				return c, true
 			}
 		}
-		// append(x.f, ...) and friends: derived from the first tracked argument
+		// append(x.f, ...) and friends: derived from the first tracked argument (a package-level
+		// variable passed to anything but append does not make the result an alias of it:
+		// tx.Bucket(bucketName), bytes.HasPrefix(k, prefix))
+		isAppend := false
+		if id, ok := x.Fun.(*ast.Ident); ok && id.Name == "append" {
+			isAppend = true
+		}
 		for _, a := range x.Args {
 			if c, ok := t.classOf(a, sc); ok && !strings.HasPrefix(c, "=") {
+				if strings.HasPrefix(c, "global.") && !isAppend {
+					continue
+				}
 				return c, true
 			}
 		}
@@ -433,6 +488,11 @@ func (t *fnTrans) call(x *ast.CallExpr, sc *scope) *stmt {
 			if strings.HasPrefix(c, "=") {
 				// method of the tracked object itself
 				return seq(args, &stmt{kind: "Call", s1: "@" + c[1:], s2: meth})
+			}
+			// the declared type of the field decides where the call goes: a method of one of
+			// the package's own types (struct or interface) is a direct call of it
+			if et := t.p.fieldElem[c]; et != "" && t.p.hasMethod(et, meth) {
+				return seq(t.exprNoRoot(f.X, sc), acc(c, false), args, &stmt{kind: "Call", s1: "@" + et, s2: meth})
 			}
 			return seq(t.exprNoRoot(f.X, sc), args, &stmt{kind: "Call", s1: c, s2: meth})
 		}
@@ -859,6 +919,7 @@ func main() {
 	var pairs []string
 	var mutexPairs []string
 	methodNames := map[string]bool{}
+	var externalFields []string
 	for _, dir := range []string{".", "driver"} {
 		tag := "func"
 		if dir != "." {
@@ -874,6 +935,9 @@ func main() {
 					methodNames[mn.Name] = true
 				}
 			}
+		}
+		for f := range p.external {
+			externalFields = append(externalFields, q(f))
 		}
 		perStruct := map[string][]string{}
 		for mf := range p.mutexField {
@@ -966,6 +1030,12 @@ func main() {
 	}
 	sort.Strings(ms)
 	sb.WriteString(strings.Join(ms, "; "))
+	sb.WriteString("].\n\n")
+	// fields whose declared (element) type belongs to another package: any method called on
+	// them is that package's
+	sb.WriteString("Definition gen_external : list string := [")
+	sort.Strings(externalFields)
+	sb.WriteString(strings.Join(externalFields, "; "))
 	sb.WriteString("].\n\n")
 	sb.WriteString("Definition gen_entry (n : string) : stmt :=\n  match lookup_fun gen_funs n with Some s => s | None => Unsupported (\"missing function \" ++ n) end.\n\n")
 	sort.Strings(pairs)
